@@ -195,6 +195,10 @@ class Interp:
             for name, d in (lay.get(key) or {}).items():
                 if isinstance(d.get("slot"), int):
                     self.slots[name] = (space, d["slot"])
+        self.immutables = {}  # name -> (byte offset in the data section, type)
+        for name, d in (lay.get("code_layout") or {}).items():
+            self.immutables[name] = d["offset"]
+        self.ctor_mode = False
         self.funcs = {}
         self.vars = {}
         for n in self.mod.body:
@@ -255,6 +259,20 @@ class Interp:
             tr = tr + ((("sstore" if space == "storage" else "tstore"), slot + BV(i), w),)
         return st.copy(**{space: arr, "trace": tr})
 
+    # ------------------------------------------------------------------ immutables
+    def read_immutable(self, st, name, t):
+        """run-time code reads the value the constructor assigned: the word(s) at the variable's reported offset of the
+        data section appended to the deployed code; inside the constructor, the value assigned so far"""
+        key = "imm:" + name
+        if self.ctor_mode:
+            if key not in st.locals:
+                raise Unsupported("immutable read before assignment in the constructor")
+            return st.locals[key]
+        off = self.immutables[name]
+        ws = [z3.Concat(*[z3.Select(self.env.imm0, BV(off + 32 * i + j)) for j in range(32)]) for i in range(n_words(t))]
+        v, _ = unflatten(t, ws)
+        return v
+
     # ------------------------------------------------------------------ lvalues
     # an lvalue is resolved (its index expressions evaluated, bounds checked) into ("local", name, path) or
     # ("state", space, slot expr, type); path is a list of concrete or symbolic indices into the nested Python lists
@@ -262,10 +280,18 @@ class Interp:
         """-> list of (st, ref)"""
         vy = self.vy
         if isinstance(node, vy.Name):
+            if node.id in self.immutables and self.ctor_mode:
+                return [(st, ("local", "imm:" + node.id, [], self.typ(node)))]
+            if node.id in self.immutables:
+                st = st.copy()
+                st.locals["immrt:" + node.id] = self.read_immutable(st, node.id, self.typ(node))
+                return [(st, ("local", "immrt:" + node.id, [], self.typ(node)))]
             if node.id not in st.locals:
                 raise Unsupported(f"name {node.id}")
             return [(st, ("local", node.id, [], self.typ(node)))]
         if isinstance(node, vy.Attribute):
+            if isinstance(node.value, vy.Name) and node.value.id == "self" and node.attr in self.immutables and self.ctor_mode:
+                return [(st, ("local", "imm:" + node.attr, [], self.typ(node)))]
             if isinstance(node.value, vy.Name) and node.value.id == "self":
                 space, slot = self.var_loc(node.attr)
                 return [(st, ("state", space, BV(slot), self.typ(node)))]
@@ -350,7 +376,7 @@ class Interp:
         if ref[0] == "state":
             return self.store_at(st, ref[1], ref[2], ref[3], val)
         st = st.copy()
-        st.locals[ref[1]] = self._set_path(st.locals[ref[1]], ref[2], val)
+        st.locals[ref[1]] = self._set_path(st.locals.get(ref[1]), ref[2], val)
         return st
 
     # ------------------------------------------------------------------ expressions
@@ -383,6 +409,8 @@ class Interp:
                 return [(st, st.locals[node.id])]
             if node.id == "self":
                 return [(st, self.env.scalar("address"))]
+            if node.id in self.immutables:
+                return [(st, self.read_immutable(st, node.id, self.typ(node)))]
             raise Unsupported(f"name {node.id}")
         if isinstance(node, vy.Attribute):
             if isinstance(node.value, vy.Name):
@@ -391,6 +419,8 @@ class Interp:
                     return [(st, self.env.callvalue if ENV_ATTRS[key] is None else self.env.scalar(ENV_ATTRS[key]))]
                 if key == ("self", "balance"):
                     return [(st, self.env.scalar("selfbalance"))]
+            if isinstance(node.value, vy.Name) and node.value.id == "self" and node.attr in self.immutables:
+                return [(st, self.read_immutable(st, node.attr, self.typ(node)))]
             if isinstance(node.value, vy.Name) and node.value.id == "self" and node.attr in self.slots:
                 space, slot = self.var_loc(node.attr)
                 return [(st, self.load_at(st, space, BV(slot), self.typ(node)))]
@@ -817,7 +847,7 @@ class Interp:
         if self.depth > 6:
             raise Unsupported("call depth")
         saved = st.locals
-        loc = {}
+        loc = {k: v for k, v in st.locals.items() if k.startswith("imm:")}
         all_args = list(ft.positional_args) + list(ft.keyword_args)
         for a, v in zip(all_args, args):
             loc[a.name] = v
@@ -827,7 +857,9 @@ class Interp:
         for s, sig in self.block(st.copy(locals=loc), fdef.body):
             if sig is None or sig[0] == "return":
                 val = sig[1] if sig else None
-                out.append((s.copy(locals=dict(saved)), val))
+                keep = dict(saved)
+                keep.update({k: v for k, v in s.locals.items() if k.startswith("imm:")})
+                out.append((s.copy(locals=keep), val))
             else:
                 raise Unsupported("break/continue escaped a function")
         self.depth -= 1
@@ -1115,6 +1147,57 @@ class Interp:
                 st = self.require(st, env.callvalue == 0)
             self.finish(st, default, [])
         outs = list(self.outcomes)
+        if self.reverts:
+            outs.append(Outcome("revert", St(z3.Or(*self.reverts), {}, env.storage0, env.transient0, (), ()), words=[]))
+        return outs
+
+    def run_constructor(self, runtime: bytes, imm_len: int, imm_types):
+        """deployment (docs/control-structures.rst `__init__`, compiler-exports `bytecode`): the constructor arguments are
+        ABI-encoded behind the init code; a non-payable constructor refuses value; every argument word must be canonical;
+        on success the code installed is `bytecode_runtime` followed by the immutables at their reported offsets"""
+        env = self.env
+        self.ctor_mode = True
+        st0 = St(z3.BoolVal(True), {}, env.storage0, env.transient0, (), ())
+        ctor = None
+        for fdef in self.funcs.values():
+            if fdef._metadata["func_type"].is_constructor:
+                ctor = fdef
+        outs = []
+        finals = []
+        if ctor is None:
+            st = self.require(st0, env.callvalue == 0)
+            finals.append(st)
+        else:
+            ft = ctor._metadata["func_type"]
+            st = st0
+            if not ft.is_payable:
+                st = self.require(st, env.callvalue == 0)
+            vals = []
+            off = 0
+            for a in ft.positional_args:
+                ws = []
+                for i in range(n_words(a.typ)):
+                    ws.append(z3.Concat(*[z3.If(z3.ULT(BV(off + j), env.code_tail_len), z3.Select(env.code_tail, BV(off + j)), z3.BitVecVal(0, 8)) for j in range(32)]))
+                    off += 32
+                for lt, w in zip(_leaf_types(a.typ), ws):
+                    st = self.require(st, canonical(lt, w))
+                v, _ = unflatten(a.typ, ws)
+                vals.append(v)
+            for s1, _ in self.run_function(st, ctor, vals):
+                finals.append(s1)
+        for s1 in finals:
+            mem = ByteMem(z3.K(W, z3.BitVecVal(0, 8)))
+            for i, b in enumerate(runtime):
+                if b:
+                    mem = mem.store8(BV(i), z3.BitVecVal(b, 8))
+            for name, off in self.immutables.items():
+                t = imm_types[name]
+                if "imm:" + name not in s1.locals:
+                    raise Unsupported(f"immutable {name} not assigned on a constructor path")
+                for i, w in enumerate(flatten(t, s1.locals["imm:" + name])):
+                    mem = mem.store(BV(len(runtime) + off + 32 * i), w)
+            outs.append(Outcome("return", s1, raw={"len": BV(len(runtime) + imm_len), "off": BV(0), "mem": mem}))
+        outs += list(self.outcomes)
         if self.reverts:
             outs.append(Outcome("revert", St(z3.Or(*self.reverts), {}, env.storage0, env.transient0, (), ()), words=[]))
         return outs
